@@ -95,6 +95,10 @@ func (cs *c19Schema) program() *Program {
 	if cs.hasLD {
 		out = append(out, "l", E("$.input.l"), "m", O("inner", E("$.input.l")))
 	}
+	if cs.hasO {
+		// the output refers to an input field whose type is a reference to another object of the input scope
+		out = append(out, "o", Opt{true, "$.input.o"})
+	}
 	p.Outputs = []Output{{"success", O(out...)}}
 	return p
 }
